@@ -97,6 +97,10 @@ class Scenario:
             self.ops.append("wr all")
         elif r < 0.24:
             self.ops.append("run")
+        elif r < 0.27:
+            # a stanza for the application (its id handler, its catch-all handler) at any moment
+            self.rx(self.rng.choice(["<iq type='result' id='uid1'/>", "<message id='uid1' from='a@b'/>",
+                                     "<presence from='a@b'/>"]))
 
 
 def predict_mech(offered, jid, has_pass, cert, secured, tried):
@@ -378,7 +382,9 @@ def conforming_login(s, rng, sm=True, resume=None, bind_jid="user@example.org/re
     """a conforming PLAIN login up to CONNECT (or to the <resume/> answer when `resume` is given)"""
     s.rx(s.header() + s.features(mechs=["PLAIN"]))
     s.rx("<success xmlns='%s'/>" % NS_SASL)
-    s.rx(s.header() + s.features(bind=True, sm=sm, session=rng.choice([None, None, "optional"])))
+    # (a server that offers resumption but no <bind/> when a resumption is expected: rare, allowed)
+    s.rx(s.header() + s.features(bind=not (resume is not None and rng.random() < 0.15), sm=sm,
+                                 session=rng.choice([None, None, "optional"])))
     if resume is not None:
         s.rx(resume)
         if "<resumed" in resume:
@@ -516,7 +522,8 @@ def traffic(s, rng, sm_on):
         if k < 0.3:
             s.rx(rng.choice(["<message id='i%d' from='a@b'><body>hi</body></message>",
                              "<presence id='i%d'/>", "<iq id='i%d' type='get'><ping xmlns='urn:xmpp:ping'/></iq>",
-                             "<foo xmlns='urn:x' id='i%d'/>"]) % rng.randrange(1000))
+                             "<foo xmlns='urn:x' id='i%d'/>", "<iq type='result' id='uid1'><q n='%d'/></iq>"])
+                 % rng.randrange(1000))
         elif k < 0.42:
             s.rx("<r xmlns='%s'/>" % NS_SM)
         elif k < 0.54:
@@ -544,6 +551,8 @@ def traffic(s, rng, sm_on):
 
 
 WRONG = [
+    lambda r: "<iq type='error' id='uid1'/>",            # matches the application's id handler
+    lambda r: "<message id='uid1'><x xmlns='%s'/></message>" % NS_SM,
     lambda r: "<success xmlns='%s'/>" % NS_SASL,
     lambda r: "<failure xmlns='%s'/>" % NS_SASL,
     lambda r: "<challenge xmlns='%s'/>" % NS_SASL,
